@@ -17,6 +17,7 @@ func init() {
 			ruleBTRec(c)
 			ruleSGNames(c)
 			ruleALBump(c)
+			ruleBTWidth(c, true)
 		})
 
 	register("C03",
@@ -34,6 +35,8 @@ func init() {
 			ruleDstFresh(c)
 			ruleALStr(c)
 			ruleODClear(c, s)
+			ruleODMeta(c, s)
+			ruleCPDrain(c, s)
 		})
 
 	register("C13",
@@ -53,6 +56,7 @@ func init() {
 			ruleOMZero(c)
 			rulePCNew(c)
 			ruleTSWide(c)
+			ruleVarStd(c)
 		})
 }
 
@@ -70,6 +74,7 @@ func init() {
 			ruleSGRec(c)
 			ruleBTWidth(c, true)
 			ruleLKShared(c)
+			ruleSGSeen(c)
 		})
 }
 
@@ -112,6 +117,7 @@ func init() {
 			ruleVarStd(c)
 			ruleOMZero(c)
 			ruleODLenFlow(c, findReadFile(c.P))
+			ruleENC(c)
 		})
 
 	register("C02",
@@ -167,6 +173,7 @@ func init() {
 				rt := readerCompTable(c.P, s)
 				c.Check(!rt.nilSrc, fnKey(s.fn)+"/decompress-receiver", c.P.pos(s.decompress.Pos()), "every value flowing into the receiver of decompress is non-nil", "a nil interface flows into the receiver of decompress")
 			}
+			ruleTLDiv(c)
 			c.Assume = append(c.Assume, "int is 64 bits: int(v) of a decoded int64 preserves the value")
 			c.Note("not decided: termination (a huge count with zero-width items loops for a long time), panics inside compress/flate, snappy, json; recursion depth")
 		})
@@ -188,6 +195,8 @@ func init() {
 			ruleLKGlobal(c)
 			ruleDstFresh(c)
 			ruleODClear(c, findReadFile(c.P))
+			rulePCNew(c)
+			ruleALOwner(c)
 		})
 }
 
